@@ -29,6 +29,10 @@ def run(ck):
     flags.callbacks_in_handler(ck, "C04.R5", h, roles)
     flags.callback_names(ck, "C04.R5")
     flags.propagation(ck, "C04.R6")
+    from . import fresh, conv
+    fresh.constructor_state(ck, "C20.R2")              # derived objects start with a fresh, unshared status record
+    conv.getitem_keeps_map(ck, "C17.R6")               # indexing builds its element with the constructor (own status record)
+    fresh.returned_objects_fresh(ck, "C20.R1")
     # handler is fed the rounded value with the format's bounds: decided in pipeline rules (C01.R2/C02.R2),
     # imported here so that C04 stands alone
     from . import pipeline
